@@ -348,7 +348,9 @@ CfgReplaceAll(st, k, v, p) ==
 (* (Defined when NEW does not exist and differs from OLD.)                  *)
 CfgRenameSection(st, sect, o, n) ==
   LET f == IF sect = "remote" THEN st.cfg.remote ELSE st.cfg.branch IN
-  IF o \notin DOMAIN f THEN No(st)
+  IF o \notin DOMAIN f
+  THEN (IF sect = "remote" THEN No(st)
+        ELSE Either(st))       \* a branch section without upstream settings may exist in the file: moving it shows nothing
   ELSE IF sect = "remote" THEN Yes([st EXCEPT !.cfg.remote = Put(Drop(@, o), n, f[o])])
   ELSE Yes([st EXCEPT !.cfg.branch = Put(Drop(@, o), n, f[o])])
 
